@@ -17,6 +17,59 @@ CHECKS = {
          "'derivative' is proved over R in Proofs/BezierAnalytic.v when present; the formal-derivative theorem is generic."),
    technique='Coq theorems (ring/field over generic field) + AST translator agreement lemmas + exact-rational correspondence',
    ref='DESIGN.md §3 C03'),
+ 'C05': dict(
+   text=("Model coq/Model/PathIdx.v mirrors _calc_lengths/T2t/t2T/point (incl. CPython 3.12's compensated sum) and "
+         "iscontinuous/continuous_subpaths. Over R, for any number of segments: T2t selects a positive-length segment with "
+         "0<t<=1 and cum_k<T<=cum_(k+1), t2T/T2t are mutually inverse, point selects the same (k,t), interval membership; for any "
+         "carrier: subpaths concatenate back, are continuous, maximal. Binary64: fall-off refuted by vm_compute witness; the repaired "
+         "variant (flag fb) is proved total. Tie: the model is run bit-exactly in PrimFloat inside Coq on the implementation's own "
+         "_lengths and must predict k exactly, t/T within 4 ulp, exceptions by class; the statement is also evaluated on the implementation."),
+   note=("Trusted: Coq kernel+vm_compute, PrimFloat primitives = CPython float arithmetic, harness. Segment lengths are data (C06). "
+         "No translator tie (loops): AST fingerprint of the 7 modelled functions raises the case budget when they change."),
+   technique='Coq theorems over R / any carrier + PrimFloat bit-exact model replay (correspondence)',
+   ref='DESIGN.md §3 C05'),
+ 'C14': dict(
+   text=("Green/shoelace/reversal/translation/affine-determinant/ccw-positivity theorems for the model of Path.area over a generic "
+         "field (closed) and over R (RInt), arc contribution = chord polygon by definition, is_contained_by unfolding and the "
+         "polygon parity theorem for path_encloses_pt under explicit general-position hypotheses (Props/C14.v). Tie: translator "
+         "agreement lemmas for the per-degree area kernel (GenAgree/Area.v) + exact-rational correspondence of area() and of the "
+         "Line-Line/enclosure decision structure; the statement is evaluated on the implementation with Fractions."),
+   note=("Trusted: kernel, translator, harness. Path.intersect for curved segments and Arc.point/length are oracles (C11/C12, C04/C06). "
+         "Parity theorem covers polygons; curved paths by sampled reference only."),
+   technique='Coq theorems (ring/field, Coquelicot RInt, nra) + translator agreement + exact-rational correspondence',
+   ref='DESIGN.md §3 C14'),
+ 'C17': dict(
+   text=("Reference semantics (SVG 1.1 §7.6 transform items, §9 shapes, structural flattening) and faithful models of "
+         "flattened_paths' explicit stack, parse_transform, the *2pathd converters, svg2paths, SaxDocument (coq/Model/SvgTree.v). "
+         "Theorems for every tree (induction): stack traversal = recursion up to the proved order, composition outermost-first, per-item "
+         "matrices = spec for all argument counts, shape converters = spec, with _refuted witnesses for each place where the faithful "
+         "model of the current code departs from the spec (Props/C17.v). Tie: random trees rendered to SVG, run through Document/svg2paths/"
+         "SaxDocument, compared inside Coq (exact rationals) with BOTH the implementation model (tie) and the reference (property)."),
+   note=("Trusted: kernel, harness. XML parsing (ElementTree/minidom), str.split tokenisation of transform lists are oracles; trig of "
+         "the angle enters as data. Image of an arc under a matrix is C10's subject."),
+   technique='Coq refinement theorems (tree induction, ring) + exact-rational correspondence against model and reference',
+   ref='DESIGN.md §3 C17'),
+ 'C18': dict(
+   text=("Models of wsvg, the three readers and Document add_path/add_group/save/reload histories with (namespace, local) tags "
+         "(coq/Model/SvgIO.v). Theorems: wsvg round trip returns the same d-strings in order with supplied attributes included (modulo "
+         "the named hypothesis parse(d(p)) = p, which is C01), save/reload identity on the tree, and — for every history — the "
+         "faithful model REFUTES visibility of added paths (general theorem, not only a witness); repaired variant proved. "
+         "Tie: real files in a scratch dir; histories and wsvg cases compared inside Coq with the model; statement evaluated in Python."),
+   note=("Trusted: kernel, harness. svgwrite, minidom, ElementTree serialisation are oracles. Mostly glue around C01."),
+   technique='Coq theorems over operation histories (induction) + correspondence on real files',
+   ref='DESIGN.md §3 C18'),
+ 'C20': dict(
+   text=("Model of smoothed_joint (line-line, line-curve, curve-line as coded; curve-curve through ilength/cropped oracles) and of the "
+         "smoothed_path loop with wrap-around (coq/Model/Smooth.v). Theorems over R: elbow end points/derivatives with positive factor "
+         "(tangent match), hull bound |elbow - corner| <= 4a/3 <= maxjointsize, trimmed lines are sub-segments, and — by induction for "
+         "paths of any length, for any joint procedure meeting JointOK — output continuous, every joint tangent-matched or untouched-"
+         "smooth, end points kept / closedness kept, smooth joints preserved, within maxjointsize of the input; single segment unchanged. "
+         "Tie: translator lemmas for the expression-level helpers + 120-bit bigfloat correspondence of joints and whole paths; statement "
+         "evaluated on the implementation."),
+   note=("Trusted: kernel, translator, harness, BigF evaluation accuracy. Curve-curve joints are _partial under the stated oracle "
+         "contracts (ilength/cropped: C07/C09); singular unit tangents are an oracle (C15)."),
+   technique='Coq theorems over R (Coquelicot/nra, list induction) + translator agreement + bigfloat correspondence',
+   ref='DESIGN.md §3 C20'),
 }
 def main():
     checks = []
